@@ -4,10 +4,11 @@
 import os, json, glob, shutil
 V = os.path.dirname(os.path.dirname(os.path.abspath(__file__)))
 rs = {}
-try:
-    rs = json.load(open("/tmp/seeded-results/rs_demos.json"))
-except OSError:
-    pass
+for f in ("/tmp/seeded-results/rs_demos.json", "/tmp/seeded-results/rs_demos2.json"):
+    try:
+        rs.update(json.load(open(f)))
+    except OSError:
+        pass
 rows = []
 for p in ["C%02d" % i for i in range(1, 21)]:
     for v in ("A", "B", "C", "D"):
@@ -36,6 +37,12 @@ for p in ["C%02d" % i for i in range(1, 21)]:
         except (OSError, ValueError):
             pass
         ck = (ev.get("checks") or {}).get(p, {})
+        by_other = ""
+        if not ck.get("detected"):
+            for other, x in (ev.get("checks") or {}).items():
+                if other != p and x.get("detected"):
+                    ck = dict(x)
+                    by_other = other
         ran = ["git apply patch.diff in a scratch worktree of /repo HEAD (outside /repo and /verif)",
                "cargo nextest run --workspace --no-fail-fast --test-threads 8 --offline -> %s" % "; ".join(ev.get("test_suite", []))]
         if ev.get("demo_with_patch"):
@@ -50,15 +57,15 @@ for p in ["C%02d" % i for i in range(1, 21)]:
             "existing_test_suite_passes": bool(ev.get("suite_ok")), "demonstration_files": demos,
             "demonstration_with_patch": am.get("demo_result_with_patch"), "demonstration_without_patch": am.get("demo_result_without_patch"),
             "what_was_run": ran,
-            "detected_by_quick_check": bool(ck.get("detected")), "signatures": ck.get("signatures", [])[:6], "check_wall_s": ck.get("wall_s"),
+            "detected_by_quick_check": bool(ck.get("detected")), "detected_by": (by_other or p) if ck.get("detected") else None, "signatures": ck.get("signatures", [])[:6], "check_wall_s": ck.get("wall_s"),
         }
         json.dump(meta, open(os.path.join(dst, "meta.json"), "w"), indent=1, default=str)
-        rows.append((key, (am.get("summary") or "")[:150].replace("|", "/").replace("\n", " "), (am.get("needs_to_manifest") or "")[:150].replace("|", "/").replace("\n", " "), "yes" if ck.get("detected") else "NO",
+        rows.append((key, (am.get("summary") or "")[:150].replace("|", "/").replace("\n", " "), (am.get("needs_to_manifest") or "")[:150].replace("|", "/").replace("\n", " "), ("yes" + (" (by %s)" % by_other if by_other else "")) if ck.get("detected") else "NO",
                      "; ".join(s[:70] for s in ck.get("signatures", [])[:2]), ck.get("wall_s")))
 with open(os.path.join(V, "seeded", "RESULTS.md"), "w") as f:
     f.write("# Independently seeded changes vs. the quick checks\n\nEach change was written by a sub-agent that saw only the property text and a scratch worktree; it compiles, passes the 470-test baseline, and comes with a demonstration that fails with it and passes without it (all re-run here). `detected` = `./check <property> quick` run against a scratch worktree with the patch applied exits 1 with a VIOLATION line.\n\n")
     f.write("| id | change | needs to manifest | detected | signatures (first two) | wall s |\n|---|---|---|---|---|---|\n")
     for r in rows:
         f.write("| %s | %s | %s | %s | %s | %s |\n" % r)
-    f.write("\n%d of %d detected by the property's own quick check.\n" % (sum(1 for r in rows if r[3] == "yes"), len(rows)))
-print("collected", len(rows), "changes;", sum(1 for r in rows if r[3] == "yes"), "detected")
+    f.write("\n%d of %d detected by the property's own quick check.\n" % (sum(1 for r in rows if r[3].startswith("yes")), len(rows)))
+print("collected", len(rows), "changes;", sum(1 for r in rows if r[3].startswith("yes")), "detected")
